@@ -149,6 +149,16 @@ def scratch(prefix='xv-'):
 def run_main(fn):
     """wrap a check main: Inconclusive / unexpected exceptions -> exit 2"""
     from . import build
+    import signal
+    # wall-clock watchdog around the whole check (generous: an hour for the quick tier, eight for the thorough one): its firing is a
+    # harness matter (exit 2, inconclusive), never a verdict
+    def _alarm(signum, frame):
+        raise Inconclusive('watchdog: the check did not finish within its wall-clock budget')
+    try:
+        signal.signal(signal.SIGALRM, _alarm)
+        signal.alarm(8 * 3600 if '--tier' in sys.argv and 'thorough' in sys.argv else 3600)
+    except (ValueError, OSError):
+        pass
     try:
         rc = fn()
     except Inconclusive as e:
